@@ -1,6 +1,7 @@
 import Grip.Drv.Common
 import Grip.Model.C05
 import Grip.Spec.C05
+import Grip.Drv.C05Access
 import GripGen.AuthTables
 
 /-
@@ -12,6 +13,8 @@ import GripGen.AuthTables
   enforce u g o := (u, g, o) ∈ allow          (cfg "null": NullAuth / NullAccess)
   Answer: {"err":…, "handled": null | [[ty,graph|null,tag],…], "log":[[user,graph,op],…]}
   plus "spec"/"kf" when the SPEC's decision differs from the MODEL's.
+  Every other op (mode "access": the repository's own Casbin / BasicAuth / ProxyAuth) is answered
+  by Grip.Drv.C05Access.step.
 -/
 namespace Grip.Drv.C05
 open Lean Grip Grip.C05 Grip.Proto
@@ -84,7 +87,7 @@ def step (_ : Unit) (j : Json) : Unit × Json :=
               ("spec", Json.mkObj [("err", errJson d.err), ("handled", handledJson d.handled), ("log", logJson log)]),
               ("kf", Json.str tag)]))
     | _, _ => ((), Drv.bad "call: cannot decode")
-  | _ => ((), Drv.bad "unknown op")
+  | _ => ((), Grip.Drv.C05Access.step T j)   -- ops of mode "access": casbin / basic / proxy / e2e
 
 def main : IO Unit := Drv.runLoop () step
 
